@@ -253,7 +253,7 @@ class Replayer:
                 if s_ != w and not (s_ == "null"):
                     self.fail(node, beh, k, bk, "dtype-static", f"column {n}: static type family {s_}, specification {w}")
                 okfam = (e_ == w) or (e_ == "null" and all(v is None for v in df[n].to_list())) or (
-                    bk != "polars" and {e_, w} <= {"int", "float", "bool"})
+                    bk != "polars" and {e_, w} <= {"int", "float"})     # "up to the numeric family" on SQL
                 if not okfam:
                     self.fail(node, beh, k, bk, "dtype-export", f"column {n}: exported {e_}, specification {w}")
         except Exception as e:  # noqa: BLE001
@@ -300,7 +300,7 @@ class Replayer:
                 a, b = st1.get(n), st2[n]
                 if a is None or a == b or b == "null" or a == "null":
                     continue
-                if bk != "polars" and {a, b} <= {"int", "float", "bool"}:
+                if bk != "polars" and {a, b} <= {"int", "float"}:
                     continue
                 self.fail(node, beh, k, bk, "dtype-roundtrip", f"column {n}: static type family {a} before export, {b} after re-import")
         except Exception as e:  # noqa: BLE001
